@@ -435,6 +435,7 @@ func (s *session) fetchAndWriteResults(statements string, parameters []*schema.N
 		return err
 	}
 
+	s.affectedRows = 0
 	for _, stmt := range stmts {
 		switch st := stmt.(type) {
 		case *sql.UseDatabaseStmt:
@@ -453,12 +454,27 @@ func (s *session) fetchAndWriteResults(statements string, parameters []*schema.N
 		}
 	}
 
-	_, err = s.writeMessage(bm.CommandComplete([]byte(tag)))
+	_, err = s.writeMessage(bm.CommandComplete([]byte(tagWithAffectedRows(tag, s.affectedRows))))
 	if err != nil {
 		return err
 	}
 
 	return nil
+}
+
+// tagWithAffectedRows puts the number of rows the statement(s) changed into the
+// CommandComplete tag of INSERT / UPDATE / DELETE (psql prints it, database/sql
+// returns it from Result.RowsAffected, ORMs use it for optimistic locking).
+func tagWithAffectedRows(tag string, n int) string {
+	switch tag {
+	case "INSERT 0 0":
+		return "INSERT 0 " + strconv.Itoa(n)
+	case "UPDATE 0":
+		return "UPDATE " + strconv.Itoa(n)
+	case "DELETE 0":
+		return "DELETE " + strconv.Itoa(n)
+	}
+	return tag
 }
 
 var pgTypeReplacements = []struct {
@@ -1209,13 +1225,35 @@ func (s *session) exec(st sql.SQLStmt, namedParams []*schema.NamedParam, resultC
 		return err
 	}
 
-	ntx, _, err := s.db.SQLExecPrepared(s.ctx, tx, []sql.SQLStmt{st}, params)
+	before := 0
+	if tx != nil {
+		before = tx.UpdatedRows()
+	}
+
+	ntx, ctxs, err := s.db.SQLExecPrepared(s.ctx, tx, []sql.SQLStmt{st}, params)
 	s.tx = ntx
 
 	if err != nil && tx != nil && ntx == nil && s.txStatus == bm.TxStatusInTx {
 		// the engine cancels an explicit transaction when one of its
 		// statements fails: the block is aborted until COMMIT / ROLLBACK
 		s.txStatus = bm.TxStatusFailed
+	}
+
+	if err == nil {
+		// rows changed by this statement: the counter of the transaction is cumulative
+		n := 0
+		switch {
+		case ntx != nil && ntx == tx:
+			n = ntx.UpdatedRows() - before
+		case ntx == nil && len(ctxs) > 0:
+			n = ctxs[len(ctxs)-1].UpdatedRows()
+			if ctxs[len(ctxs)-1] == tx {
+				n -= before
+			}
+		}
+		if n > 0 {
+			s.affectedRows += n
+		}
 	}
 
 	return err
